@@ -111,7 +111,7 @@ def _within_rounding_sensitivity(name, a, obs, emb, init, iterations, opts, shap
 
 
 @oracle
-def mixture_gain_invariance(model, obs, emb, init, iterations, opts, gain, emb_gain):
+def mixture_gain_invariance(model, obs, emb, init, iterations, opts, gain, emb_gain, entry='fit+predict'):
     """fit / predict on y versus c*y (complex gain per time-frequency point on the spatial stream, positive real gain on
     vMF embeddings)"""
     name = model
@@ -124,6 +124,24 @@ def mixture_gain_invariance(model, obs, emb, init, iterations, opts, gain, emb_g
     y = obs if name in pu.COMPLEX_OBS else emb
     K = init.shape[-2]
     shape = (obs.shape[0], K, obs.shape[1]) if name in pu.INTEGRATION else tuple(y.shape[:-2]) + (K, y.shape[-2])
+    if entry == 'fit_predict':
+        # the one-call shortcut of the trainers: posteriors of fit_predict(y) and fit_predict(c*y)
+        if name == 'cbmm':
+            return Skip('cbmm: solver values are replayed through fit only')
+        try:
+            g1 = pu.fit(name, obs, emb, init, iterations, opts, predict=True)
+            g2 = pu.fit(name, obs2, emb2, init, iterations, opts, predict=True)
+        except Exception as e:  # noqa
+            return Skip(f'fit_predict raises {type(e).__name__}')
+        m = pu.fit(name, obs, emb, init, iterations, opts)
+        err = float(np.max(np.abs(np.asarray(g1) - np.asarray(g2))))
+        if not err <= pu.tolerances(name, m)['post']:
+            d = pu.rounding_sensitivity(name, obs, emb, init, iterations, opts)
+            if d is not None and err <= 1e-4 and err <= 1000 * d:
+                return Skip('tie-within-rounding: within the rounding sensitivity of this EM trajectory')
+            return Fail('fit_predict-gain-changes-posterior', f'{name}: fit_predict posteriors differ by {err:.3g} under a gain on '
+                        f'the observations')
+        return None
     res = []
     tape = pu.BinghamSolverTape() if name == 'cbmm' else None
     for j, (o_, e_) in enumerate(((obs, emb), (obs2, emb2))):
@@ -361,6 +379,15 @@ def search(ctx):
         g = _gain(rng, tuple(lead) + (N,))
         if dist == 'vmf':
             g = np.abs(g)
+        if rng.random() < 0.2:
+            # (nearly) unit-norm frames: every gain within 1 +- delta, delta 1e-8..6e-6 - a normalisation that is skipped
+            # for "already normalised" input (np.allclose(norm, 1)) lets exactly these through
+            y = y / np.linalg.norm(y, axis=-1, keepdims=True)
+            delta = 10.0 ** rng.uniform(-8, -5.2)
+            g = 1.0 + delta * rng.uniform(-1, 1, size=tuple(lead) + (N,))
+            if dist != 'vmf':
+                g = g * np.exp(2j * np.pi * rng.random(tuple(lead) + (N,)) * (rng.random() < 0.5))
+            ctx.count('dist-gain-near-one')
         ctx.count('dist:' + dist)
         ctx.run(distribution_gain_invariance, dist=dist, y=y, saliency=sal, gain=g)
     search_history(ctx)
@@ -378,6 +405,9 @@ def search(ctx):
         ctx.count(f'gain-span:1e{meta["span"][0]}..1e{meta["span"][1]}' if meta['span'][0] != 'near-one' else 'gain-span:1+-1e-4')
         if 'inline_permutation_aligner' in inp['opts'] or inp['opts'].get('inline_permutation_alignment'):
             ctx.count('with-inline-aligner')
+        if name != 'cbmm' and rng.random() < 0.25:
+            inp['entry'] = 'fit_predict'
+            ctx.count('entry:fit_predict')
         ok = ctx.run(mixture_gain_invariance, **inp)
         if len(ctx.samples) < 3:
             ctx.sample({'oracle': 'mixture_gain_invariance', 'model': name, **meta, 'iterations': inp['iterations'],
